@@ -372,6 +372,11 @@ class Flatten2Reshape(RewriteRuleClassBase):
         # Verify if it is possible to apply rule.
         if np.count_nonzero(self._new_shape == -1) > 1:
             return check_result.fail("Impossible to compute new shape.")
+        # Reshape reads a 0 in the target shape as "keep the input dimension", so a
+        # flattened dimension of size 0 cannot be expressed.
+        for known_shape in (input_shape, output_shape):
+            if known_shape is not None and any(dim == 0 for dim in known_shape):
+                return check_result.fail("Dimensions of size 0 are not supported.")
         return check_result
 
 
